@@ -449,6 +449,9 @@ DESCRIPTOR_SCENARIOS = [
     ('missing-input', 'select a1', 'missing-input'),
     ('double-unnest', 'select UNNEST([1]), UNNEST([2])', 'parsing'),
     ('strict-left-join-failure', 'select a1 strict left join jn_1.csv on a1 == b1', 'runtime'),
+    ('output-in-missing-directory', 'select a1, a2', 'bad-output:missing-dir'),
+    ('output-path-is-a-directory', 'select a1, b2 join jn_1.csv on a1 == b1', 'bad-output:is-dir'),
+    ('output-in-missing-directory-failing-query', 'select int(a2)', 'bad-output:missing-dir'),
 ]
 
 
@@ -482,6 +485,10 @@ def leg_descriptors(ns, res, spec):
                     if expect == 'missing-input':
                         src = os.path.join(d, 'nosuch_input.csv')
                     outp = os.path.join(d, 'out.csv')
+                    if expect == 'bad-output:missing-dir':
+                        outp = os.path.join(d, 'no', 'such', 'dir', 'out.csv')
+                    elif expect == 'bad-output:is-dir':
+                        outp = d
                     fds0 = fd_count()
                     err = None
                     with pywarnings.catch_warnings(record=True) as caught:
@@ -510,9 +517,11 @@ def leg_descriptors(ns, res, spec):
                     if fd_count() != fds0:
                         res.violation('py:fd-count-changed:' + name, '[py] /proc/self/fd count %d -> %d after query_csv(%r) outcome %s' % (fds0, fd_count(), qtext, err), case)
                     exp_class = expect.rstrip('*').split('-')[0]
+                    if expect.startswith('bad-output') and err is None:
+                        res.violation('py:descriptor-scenario-did-not-fail:' + name, '[py] %r with an output path that cannot be opened did not fail' % (qtext,), case)
                     if expect == 'ok' and err is not None:
                         res.violation('py:descriptor-scenario-unexpected-error:' + name, '[py] %r raised %s' % (qtext, err), case)
-                    if expect not in ('ok', 'missing-input') and err is None and not (expect.endswith('*') and not with_headers):
+                    if expect not in ('ok', 'missing-input') and not expect.startswith('bad-output') and err is None and not (expect.endswith('*') and not with_headers):
                         res.violation('py:descriptor-scenario-did-not-fail:' + name, '[py] %r was expected to fail (%s)' % (qtext, expect), case)
             # sqlite front-end
             for qtext in ('select a1, a2', 'select int(a2)', 'select a1 where a2 = 1', 'select a1 +'):
